@@ -59,7 +59,7 @@ class Interp:
         k = n['k']
         S = fn.stmts
         if k in ('ImplicitCastExpr', 'ParenExpr', 'ExprWithCleanups', 'MaterializeTemporaryExpr', 'CXXBindTemporaryExpr', 'ConstantExpr',
-                 'CXXFunctionalCastExpr', 'CXXStaticCastExpr', 'CStyleCastExpr', 'SubstNonTypeTemplateParmExpr'):
+                 'CXXFunctionalCastExpr', 'CXXStaticCastExpr', 'CStyleCastExpr', 'SubstNonTypeTemplateParmExpr', 'CXXRewrittenBinaryOperator'):
             v = self.eval(fn, S[n['c'][0]], env)
             if k in ('CXXStaticCastExpr', 'CStyleCastExpr', 'CXXFunctionalCastExpr', 'ImplicitCastExpr'):
                 t = n.get('t', '')
@@ -100,7 +100,7 @@ class Interp:
             if 'this' in env:
                 return env['this']
             raise OutOfFragment('this unbound')
-        if k == 'MemberExpr':
+        if k == 'MemberExpr' or (k == 'CXXDependentScopeMemberExpr' and n.get('c')):
             base = self.eval(fn, S[n['c'][0]], env) if n.get('c') else env.get('this')
             if isinstance(base, tuple) and len(base) == 2 and base[0] == 'ptr':
                 base = base[1]
@@ -163,11 +163,28 @@ class Interp:
         if k == 'LambdaExpr':
             lf = self.db.fn(n['lambda'], required=False)
             if lf is None:
+                # generic lambda: only the template pattern is in the facts; its body is evaluable when it uses plain member access and operators
+                pats = self.db.by_name.get(n['lambda'], [])
+                if len(pats) == 1:
+                    lf = pats[0]
+            if lf is None:
                 raise OutOfFragment('lambda body not found')
             return ('lambda', lf, env)
         if k == 'InitListExpr':
             vals = [self.eval(fn, S[c], env) for c in n['c']]
             t = n.get('t', '')
+            rec = self.db.records.get(t.replace('const ', '').strip()) if t else None
+            if rec is not None and rec.get('fields') and len(vals) <= len(rec['fields']) and not rec.get('methods_ctor'):
+                # aggregate initialisation of a repository struct: positional fields, the rest from their default initialisers
+                o = Obj()
+                o['__cls__'] = t
+                for i, fld in enumerate(rec['fields']):
+                    if i < len(vals):
+                        o[fld['name']] = vals[i]
+                    else:
+                        initfn = self.db.fn(t + '::' + fld['name'] + '::<init>', required=False)
+                        o[fld['name']] = self.eval(initfn, initfn.stmts[initfn.body], {'this': o}) if initfn is not None else UNKNOWN
+                return o
             if len(vals) == 1 and not any(x in t for x in ('vector', 'initializer_list', 'array', '[', 'set', 'map')):
                 return vals[0]
             return vals
@@ -217,8 +234,20 @@ class Interp:
             return
         if tgt['k'] == 'MemberExpr':
             base = self.eval(fn, fn.stmts[tgt['c'][0]], env) if tgt.get('c') else env.get('this')
+            if isinstance(base, tuple) and len(base) == 2 and base[0] == 'ptr':
+                base = base[1]
             if isinstance(base, Obj):
                 base[tgt['member']] = v
+                return
+        if tgt['k'] in ('CXXMemberCallExpr', 'CXXOperatorCallExpr') and (tgt.get('cs') or '').startswith(('std::unordered_map::', 'std::map::')) and (tgt.get('cs') or '').split('::')[-1] in ('at', 'operator[]'):
+            if tgt['k'] == 'CXXMemberCallExpr':
+                o = self.eval(fn, fn.stmts[tgt['obj']], env)
+                key = self.eval(fn, fn.stmts[tgt['args'][0]], env)
+            else:
+                o = self.eval(fn, fn.stmts[tgt['args'][0]], env)
+                key = self.eval(fn, fn.stmts[tgt['args'][1]], env)
+            if isinstance(o, dict) and not isinstance(o, Obj) and (key in o or tgt['cs'].endswith('operator[]')):
+                o[key] = v
                 return
         raise OutOfFragment('assignment target %s' % tgt['k'])
 
@@ -245,6 +274,14 @@ class Interp:
                     if not (0 <= v[2] < len(v[1])):
                         raise OutOfFragment('dereference of an iterator at position %d of a sequence of length %d at %s' % (v[2], len(v[1]), fn.loc(n)))
                     return v[1][v[2]]
+                if op == '->' and isinstance(v, tuple) and len(v) == 3 and v[0] == 'mapit':
+                    if v[2] not in v[1]:
+                        raise OutOfFragment('dereference of a map end iterator at %s' % fn.loc(n))
+                    return ('ptr', Obj(first=v[2], second=v[1][v[2]], __mapslot__=(v[1], v[2])))
+                if op == '->' and isinstance(v, tuple) and len(v) == 3 and v[0] == 'it':
+                    if not (0 <= v[2] < len(v[1])):
+                        raise OutOfFragment('dereference of an iterator at position %d of a sequence of length %d at %s' % (v[2], len(v[1]), fn.loc(n)))
+                    return ('ptr', v[1][v[2]])
                 return v
         if callee in ('std::max', 'std::min') and len(n['args']) == 2:
             a, b = (self.eval(fn, S[x], env) for x in n['args'])
@@ -309,6 +346,20 @@ class Interp:
                     return o is not None
                 return NOT_HANDLED
             o = self.eval(fn, S[n['obj']], env)
+            if isinstance(o, (bytes, bytearray)):
+                args = n.get('args', [])
+                if last in ('size', 'length'):
+                    return len(o)
+                if last == 'empty':
+                    return len(o) == 0
+                if last in ('at', 'operator[]') and len(args) == 1:
+                    i = self.eval(fn, S[args[0]], env)
+                    if isinstance(i, int) and 0 <= i < len(o):
+                        return o[i]
+                    if last == 'operator[]' and i == len(o):
+                        return 0
+                    raise OutOfFragment('string index %r out of range (length %d) at %s' % (i, len(o), fn.loc(n)))
+                return NOT_HANDLED
             if not isinstance(o, list):
                 return NOT_HANDLED
             args = n.get('args', [])
@@ -352,10 +403,43 @@ class Interp:
             o = self.eval(fn, S[n['args'][0]], env)
             if cs == 'std::next' and isinstance(o, tuple) and o[0] == 'it':
                 return ('it', o[1], o[2] + 1)
+            if isinstance(o, (bytes, bytearray, dict, set)) and not isinstance(o, Obj) and cs in ('std::size', 'std::ssize', 'std::empty'):
+                return len(o) == 0 if cs == 'std::empty' else len(o)
             if isinstance(o, list):
                 return {'std::begin': ('it', o, 0), 'std::cbegin': ('it', o, 0), 'std::end': ('it', o, len(o)), 'std::cend': ('it', o, len(o)),
                         'std::size': len(o), 'std::ssize': len(o), 'std::empty': len(o) == 0}[cs]
             return NOT_HANDLED
+        if k == 'CallExpr' and cs in ('std::find_if', 'std::all_of', 'std::any_of', 'std::none_of', 'std::for_each', 'std::count_if') and len(n.get('args', [])) == 3:
+            b, e, lam = (self.eval(fn, S[a], env) for a in n['args'])
+            if isinstance(b, tuple) and isinstance(e, tuple) and b[0] == 'it' and e[0] == 'it' and b[1] is e[1]:
+                hits = 0
+                for i in range(b[2], e[2]):
+                    r = self.call_lambda(lam, [b[1][i]])
+                    if cs == 'std::find_if' and r:
+                        return ('it', b[1], i)
+                    if cs == 'std::all_of' and not r:
+                        return False
+                    if cs == 'std::any_of' and r:
+                        return True
+                    if cs == 'std::none_of' and r:
+                        return False
+                    hits += 1 if r else 0
+                return {'std::find_if': ('it', b[1], e[2]), 'std::all_of': True, 'std::any_of': False, 'std::none_of': True, 'std::for_each': lam, 'std::count_if': hits}[cs]
+            raise OutOfFragment('%s form at %s' % (cs, fn.loc(n)))
+        if k == 'CXXOperatorCallExpr' and cs in ('__gnu_cxx::operator==', '__gnu_cxx::operator!=') and len(n.get('args', [])) == 2:
+            a, b = (self.eval(fn, S[x], env) for x in n['args'])
+            if isinstance(a, tuple) and isinstance(b, tuple) and a[0] == 'it' and b[0] == 'it':
+                same = a[1] is b[1] and a[2] == b[2]
+                return same == cs.endswith('==')
+            raise OutOfFragment('iterator comparison form at %s' % fn.loc(n))
+        if k == 'CallExpr' and cs == 'std::find' and len(n.get('args', [])) == 3:
+            b, e, v = (self.eval(fn, S[a], env) for a in n['args'])
+            if isinstance(b, tuple) and isinstance(e, tuple) and b[0] == 'it' and e[0] == 'it' and b[1] is e[1]:
+                for i in range(b[2], e[2]):
+                    if b[1][i] == v:
+                        return ('it', b[1], i)
+                return ('it', b[1], e[2])
+            raise OutOfFragment('std::find form at %s' % fn.loc(n))
         if k in ('CXXConstructExpr', 'CXXTemporaryObjectExpr') and (n.get('cls') or '').startswith('std::vector'):
             args = [self.eval(fn, S[a], env) for a in n.get('args', [])]
             if not args or args[0] is UNKNOWN:
@@ -412,6 +496,43 @@ class Interp:
                 x = tuple(x)
             if isinstance(o, (set, frozenset)):
                 return (x in o) if last == 'contains' else int(x in o)
+        if k in ('CXXMemberCallExpr', 'CXXOperatorCallExpr') and cs.startswith(('std::unordered_map::', 'std::map::')):
+            # maps as plain python dicts (keys: bytes / ints / tuples)
+            if k == 'CXXMemberCallExpr' and 'obj' in n:
+                o = self.eval(fn, S[n['obj']], env)
+                args = [self.eval(fn, S[a], env) for a in n.get('args', [])]
+            else:
+                vals = [self.eval(fn, S[a], env) for a in n.get('args', [])]
+                o, args = (vals[0], vals[1:]) if vals else (None, [])
+            if isinstance(o, dict) and not isinstance(o, Obj):
+                if last in ('contains', 'count') and len(args) == 1:
+                    return (args[0] in o) if last == 'contains' else int(args[0] in o)
+                if last in ('size',):
+                    return len(o)
+                if last == 'empty':
+                    return not o
+                if last == 'at' and len(args) == 1:
+                    if args[0] not in o:
+                        raise OutOfFragment('map::at on a missing key at %s' % fn.loc(n))
+                    return o[args[0]]
+                if last == 'operator[]' and len(args) == 1:
+                    if args[0] not in o:
+                        raise OutOfFragment('map::operator[] inserting a default value at %s' % fn.loc(n))
+                    return o[args[0]]
+                if last in ('insert', 'emplace', 'try_emplace', 'insert_or_assign'):
+                    kv = args[0] if len(args) == 1 else args
+                    if isinstance(kv, (list, tuple)) and len(kv) == 2:
+                        key, val = kv
+                        isnew = key not in o
+                        if isnew or last == 'insert_or_assign':
+                            o[key] = val
+                        return (('mapit', o, key), isnew)
+                if last == 'erase' and len(args) == 1 and not isinstance(args[0], tuple):
+                    return 1 if o.pop(args[0], None) is not None else 0
+                if last == 'clear':
+                    o.clear()
+                    return None
+                raise OutOfFragment('map operation %s at %s' % (last, fn.loc(n)))
         if cs.startswith('ccl::meta::PropagateConst::'):
             # smart-pointer wrapper: modelled as the pointee
             if k in ('CXXConstructExpr', 'CXXTemporaryObjectExpr'):
@@ -560,6 +681,20 @@ class Interp:
                     v = UNKNOWN
                 env[d['did']] = v
                 env[d['name']] = v
+                bs = d.get('bindings', [])
+                if bs:
+                    # structured binding of a pair/tuple value or of an aggregate (fields in declaration order)
+                    if isinstance(v, Obj):
+                        parts = [v[kk] for kk in v if not kk.startswith('__')]
+                    elif isinstance(v, (tuple, list)):
+                        parts = list(v)
+                    else:
+                        raise OutOfFragment('structured binding of %r at %s' % (type(v), fn.loc(n)))
+                    if len(parts) != len(bs):
+                        raise OutOfFragment('structured binding arity at %s' % fn.loc(n))
+                    for b, pv in zip(bs, parts):
+                        env[b['did']] = pv
+                        env[b['name']] = pv
             return
         if k == 'SwitchStmt':
             v = self.eval(fn, S[n['cond']], env)
